@@ -43,6 +43,17 @@ func simAfterCommit(p *Pebble) {
 	}
 }
 
+// SimBeforeCommit, when set, runs on the committing goroutine right before an engine batch commit: a point
+// at which the simulator may hold that goroutine back while others run (what the batch was computed from
+// may have changed by the time it is applied).
+var SimBeforeCommit func(p *pebble.DB)
+
+func simBeforeCommit(p *Pebble) {
+	if SimBeforeCommit != nil && p != nil && p.db != nil {
+		SimBeforeCommit(p.db)
+	}
+}
+
 // SimMemTableSize, when > 0, replaces the engine's memtable size (production: 32 MiB).
 var SimMemTableSize uint64
 
